@@ -8,11 +8,14 @@ import (
 
 	"github.com/gogpu/naga"
 	"github.com/gogpu/naga/glsl"
+	"verif/internal/ctext"
 )
 
 func main() {
 	ver := flag.Int("v", 430, "version (430, 450, 460, 310, 320)")
 	ep := flag.String("e", "", "entry point")
+	quiet := flag.Bool("q", false, "do not print the GLSL")
+	doParse := flag.Bool("p", false, "parse with ctext")
 	flag.Parse()
 	for _, f := range flag.Args() {
 		b, err := os.ReadFile(f)
@@ -43,7 +46,13 @@ func main() {
 		}
 		for _, e := range eps {
 			txt, info, err := glsl.Compile(m, glsl.Options{LangVersion: v, EntryPoint: e})
-			fmt.Printf("// ==== %s ep=%s err=%v info=%+v\n%s\n", f, e, err, info, txt)
+			if !*quiet {
+				fmt.Printf("// ==== %s ep=%s err=%v info=%+v\n%s\n", f, e, err, info, txt)
+			}
+			if *doParse && err == nil {
+				_, perr := ctext.Parse(ctext.GLSL, txt)
+				fmt.Printf("// ctext.Parse %s ep=%s: %v\n", f, e, perr)
+			}
 		}
 	}
 }
